@@ -74,3 +74,19 @@ func TestVerifC06_ClusterMessage(t *testing.T) {
 		}
 	})
 }
+
+// DP14 (open, C06 side): the generated protobuf code panics on a length near 2^63; through the gossip delegate
+// (API.ClusterMessage without recover) that stops the server.
+func TestVerifWitness_DP14_Message(t *testing.T) {
+	m := test.MustRunCommand()
+	defer m.Close()
+	body := []byte{0x00, 0x83, 0x0f, 0x82, 0x80, 0x01, 0xff, 0xff, 0xff, 0xff, 0xff, 0xff, 0xff, 0xff, 0xff, 0x00, 0x00, 0x00}
+	var pv interface{}
+	func() {
+		defer func() { pv = recover() }()
+		m.API.ClusterMessage(context.Background(), bytes.NewReader(body))
+	}()
+	if pv != nil {
+		t.Fatalf("API.ClusterMessage panics on the %d byte message %x: %v", len(body), body, pv)
+	}
+}
